@@ -102,6 +102,19 @@ def T05():
     )
 
 
+def T05s():
+    """strings that no expression refers to (used with fully symbolic values)"""
+    return Tree(
+        "T05s",
+        [
+            Cfg("G", B, "g", defaults=[("y", None)]),
+            Cfg("S1", S, "s1", defaults=[('"a\\"b\\\\c"', None)]),
+            Cfg("S2", S, "s2", depends=["G"]),
+            Cfg("S3", S, None, defaults=[("S1", None)]),
+        ],
+    )
+
+
 def T06():
     """set / set default (conditional, literal and symbol-valued) on int and string targets; two sources"""
     return Tree(
@@ -337,7 +350,7 @@ def T15():
     )
 
 
-ALL = {f.__name__: f for f in (T01, T02, T03, T04, T05, T06, T07, T08, T09, T10, T11, T12, T13, T13b, T14, T15)}
+ALL = {f.__name__: f for f in (T01, T02, T03, T04, T05, T05s, T06, T07, T08, T09, T10, T11, T12, T13, T13b, T14, T15)}
 
 
 def get(tid):
